@@ -58,3 +58,33 @@ Theorem C09_retention_overlap_refuted :
   exists ps b e i, covered ps i /\ ~ covered (add_part ps b e) i.
 Proof. exact retention_overlap_refuted. Qed.
 Print Assumptions C09_retention_overlap_refuted.
+
+(* ---- the answer to "how many of these parts did you receive" (stage/local.go Received) ---- *)
+From STS Require Import Model.Queue Model.Stage Proofs.StageP.
+
+(* it is the length of the leading run of parts on record: it stops at the first part
+   that is not, whatever lies behind it *)
+Theorem C09_received_counts_leading_run : forall ps s now,
+  counted s now ps (snd (received_q s now ps)).
+Proof. exact received_q_counts_leading_run. Qed.
+Print Assumptions C09_received_counts_leading_run.
+
+(* and a part counts only when the companion of exactly that version records the range
+   (soundness of that look-up: C09_exists_sound_on_D) or the file is known completely
+   received, validated, held or put away as that version - never "failed" *)
+Theorem C09_counted_part_is_on_record : forall s now p,
+  snd (part_received s now p) = true ->
+  let monthago := now - 30 * 86400 in
+  let when := if now <? p_time p then now else if p_time p <? monthago then monthago else p_time p in
+  let s0 := lock (p_name p) (build_cache s now when) in
+  (cache_obj s0 (p_name p) = None /\
+   exists c, alookup (p_name p) (cmps s0) = Some c /\
+     name_eqb (p_renamed p) (c_renamed c) = true /\ name_eqb (p_hash p) (c_hash c) = true /\
+     name_eqb (p_prev p) (c_prev c) = true /\
+     part_exists (c_parts c) (p_beg p) (p_end p) = true) \/
+  (exists o, cache_obj s0 (p_name p) = Some o /\
+     (f_state (obj s0 o) =? ST_FAILED) = false /\
+     name_eqb (f_hash (obj s0 o)) (p_hash p) = true /\
+     name_eqb (f_renamed (obj s0 o)) (p_renamed p) = true).
+Proof. exact part_received_true_on_record. Qed.
+Print Assumptions C09_counted_part_is_on_record.
